@@ -37,6 +37,9 @@ type Arg struct {
 	Name string
 	Use  ArgUse
 	Type *xtype.Type
+	// Variadic is set for the last parameter of a variadic function, Type is
+	// the slice type of the parameter.
+	Variadic bool
 }
 
 type ArgUse string
